@@ -38,7 +38,12 @@ pub enum BOp {
 pub const TEMPLATES: [&str; 4] = ["a\tb {msg}", "{k}|{prefix}", "{prefix}|{msg}", "{msg}\t!"];
 
 pub fn style(i: usize) -> ProgressStyle {
-    ProgressStyle::with_template(TEMPLATES[i]).unwrap().with_key("k", |_: &ProgressState, w: &mut dyn Write| write!(w, "x\ty").unwrap())
+    ProgressStyle::with_template(TEMPLATES[i]).unwrap().with_key("k", |_: &ProgressState, w: &mut dyn Write| {
+        // the tab arrives once as a single char and once inside a formatted chunk
+        w.write_str("x").unwrap();
+        w.write_char('\t').unwrap();
+        write!(w, "{}", "y\tz").unwrap();
+    })
 }
 
 #[derive(Clone, Copy, Debug, PartialEq, Eq)]
@@ -207,7 +212,7 @@ impl RefState {
         let prefix = self.expand(&self.prefix);
         let line = match self.tpl {
             0 => format!("{} {}", self.expand("a\tb"), msg),
-            1 => format!("{}|{}", self.expand("x\ty"), prefix),
+            1 => format!("{}|{}", self.expand("x\ty\tz"), prefix),
             2 => format!("{}|{}", prefix, msg),
             _ => format!("{}{}", msg, self.expand("\t!")),
         };
